@@ -218,7 +218,21 @@ func (c *c06ctx) ruleR1() {
 			cst, isC := st.Val.(*ssa.Const)
 			return isC && cst.Value != nil && cst.Value.String() == "false"
 		}
-		esc := ReachAvoiding(fn, nil, isClear, isReturn)
+		// the clearing store may sit in a helper method the installer calls (on every path of the helper)
+		isClearDeep := func(in ssa.Instruction) bool {
+			if isClear(in) {
+				return true
+			}
+			if _, isGo := in.(*ssa.Go); isGo {
+				return false
+			}
+			cc := CallOf(in)
+			if cc == nil || !isModuleFn(cc.StaticCallee()) {
+				return false
+			}
+			return len(ReachAvoiding(cc.StaticCallee(), nil, isClear, isReturn)) == 0
+		}
+		esc := ReachAvoiding(fn, nil, isClearDeep, isReturn)
 		r.Check(len(esc) == 0, "C06.R1", FuncName(fn)+" clears "+c.pauseFlag, p.Pos(fn.Pos()),
 			"installing the "+c.installers[fn]+" writer clears the per-channel pause flag",
 			"installing the "+c.installers[fn]+" writer does not clear the per-channel pause flag: after PAUSE; STOP; START with only this file type the state reports active and unpaused while nothing is written")
@@ -573,8 +587,9 @@ func (c *c06ctx) ruleR4() {
 		}
 		// the publishing function: calls methods of writer handle types inside a loop
 		type wcall struct {
-			in ssa.Instruction
-			h  string
+			in  ssa.Instruction
+			h   string
+			top ssa.Instruction // the instruction of fn that leads to the call (itself, or the call of a helper)
 		}
 		var wcalls []wcall
 		var sends []ssa.Instruction
@@ -582,6 +597,15 @@ func (c *c06ctx) ruleR4() {
 			if s, ok := in.(*ssa.Send); ok {
 				if _, f, _, ok := FieldOf(s.Chan); ok && f != "" {
 					sends = append(sends, in)
+				}
+			}
+		})
+		InstrsDeep(fn, 2, func(di DeepInstr) {
+			in := di.In
+			if len(di.Path) > 0 {
+				// only helpers that are methods of the publisher itself (the per-format store steps)
+				if rc := in.Parent().Signature.Recv(); rc == nil || typeName(rc.Type()) != c.pub.Obj().Name() {
+					return
 				}
 			}
 			cc := CallOf(in)
@@ -593,7 +617,7 @@ func (c *c06ctx) ruleR4() {
 					if h == f {
 						n := cc.StaticCallee().Name()
 						if strings.HasPrefix(n, "Write") || strings.HasPrefix(n, "Create") {
-							wcalls = append(wcalls, wcall{in, h})
+							wcalls = append(wcalls, wcall{in, h, di.Top})
 						}
 					}
 				}
@@ -614,12 +638,14 @@ func (c *c06ctx) ruleR4() {
 		})
 		perHandle := map[string]bool{}
 		for _, w := range wcalls {
-			good := region != nil && (region == w.in.Block() || region.Dominates(w.in.Block()))
-			// presence test of the same handle dominates
+			good := region != nil && (region == w.top.Block() || region.Dominates(w.top.Block()))
+			// presence test of the same handle dominates (in the helper, or around the helper's call)
 			present := false
-			for _, ci := range controllingIfs(w.in.Block()) {
-				if call, ok := ci.If.Cond.(*ssa.Call); ok && call.Call.StaticCallee() != nil && c.hasPred[call.Call.StaticCallee()] == w.h && ci.Branch == 0 {
-					present = true
+			for _, blk := range []*ssa.BasicBlock{w.in.Block(), w.top.Block()} {
+				for _, ci := range controllingIfs(blk) {
+					if call, ok := ci.If.Cond.(*ssa.Call); ok && call.Call.StaticCallee() != nil && c.hasPred[call.Call.StaticCallee()] == w.h && ci.Branch == 0 {
+						present = true
+					}
 				}
 			}
 			key := fmt.Sprintf("%s.%s in %s", w.h, CallOf(w.in).StaticCallee().Name(), FuncName(fn))
@@ -749,7 +775,22 @@ func (c *c06ctx) ruleR6() {
 		if fn.Signature.Recv() == nil || typeName(fn.Signature.Recv().Type()) != c.pub.Obj().Name() {
 			bad = append(bad, FuncName(fn)+" at "+p.InstrPos(sts[0]))
 		} else if !c.pauseSet[fn] && c.installers[fn] == "" {
-			bad = append(bad, FuncName(fn)+" at "+p.InstrPos(sts[0]))
+			// a helper that only the pause setter and the installers call is part of them
+			onlyAllowed, ncall := true, 0
+			for _, cf := range p.LibFuncs() {
+				Instrs(cf, func(in ssa.Instruction) {
+					if cc := CallOf(in); cc != nil && cc.StaticCallee() == fn {
+						ncall++
+						if !(c.pauseSet[cf] || c.installers[cf] != "") {
+							onlyAllowed = false
+						}
+					}
+				})
+			}
+			onlyAllowed = onlyAllowed && ncall > 0
+			if !onlyAllowed {
+				bad = append(bad, FuncName(fn)+" at "+p.InstrPos(sts[0]))
+			}
 		}
 	}
 	r.Check(len(bad) == 0 && n > 0, "C06.R6", "writers of the per-channel pause flag", "-", fmt.Sprintf("%d writer function(s): the pause setter and the installers", n), "the per-channel pause flag is written by "+strings.Join(bad, "; ")+" (neither the pause setter nor an installer)")
